@@ -18,6 +18,8 @@ def run(ctx):
     tokenizer(ctx, None, ['tok.nopanic', 'tok.progress'], 'string tokens by class: "\\c", "\\uHHHH" with every byte of c / H free (all 256 values), "ccc"', variants=('nocb',), partition=0, multi=multi)
     read_input(ctx, ['read.nopanic'])
     kernels(ctx)
+    from ..scen_kernels2 import kernels2, kernels_fn
+    kernels2(ctx); kernels_fn(ctx)       # the same runs decide panic-freedom of these functions (every MIR assert / unwrap / slice is a path)
     truncation(ctx)
     expr_nopanic(ctx)
     arithmetic(ctx, which=['reminder', 'divide', 'add'] if ctx.quick else None, all_variants=True)
